@@ -908,11 +908,53 @@ pub fn run_alloc(cfg: &RunCfg, rep: &mut Report, prop: &str) {
     }
 }
 
+/// Run the actor-level sequences (sectors_actor) and merge what concerns `prop` into `rep`.
+/// Actor-level sequences are numbered 3_000_000+K inside c02/c04.
+fn merge_actor_level(cfg: &RunCfg, rep: &mut Report, prop: &str) {
+    match cfg.only_seq {
+        Some(k) if !(3_000_000..4_000_000).contains(&k) => return,
+        _ => {}
+    }
+    let mut sub = Report::new(prop, cfg.seed, &cfg.tier);
+    super::sectors_actor::run_into(cfg, &mut sub);
+    rep.sequences += sub.sequences;
+    rep.ops += sub.ops;
+    rep.ops_ok += sub.ops_ok;
+    rep.distinct_nontrivial += sub.distinct_nontrivial;
+    for (k, v) in sub.op_hist {
+        *rep.op_hist.entry(format!("actor:{}", k)).or_insert(0) += v;
+    }
+    for (k, v) in sub.err_hist {
+        *rep.err_hist.entry(format!("actor:{}", k)).or_insert(0) += v;
+    }
+    for (k, v) in sub.branch_hist {
+        *rep.branch_hist.entry(format!("actor:{}", k)).or_insert(0) += v;
+    }
+    let tag = format!("/{}-", prop);
+    for v in sub.violations {
+        // the actor-level oracle labels each problem with the property it belongs to (replay file name)
+        if v.replay.contains(&tag) {
+            rep.violations.push(v);
+        }
+    }
+    for n in sub.notes {
+        if !rep.notes.contains(&n) {
+            rep.notes.push(n);
+        }
+    }
+    for s in sub.samples.into_iter().take(1) {
+        rep.samples.push(s);
+    }
+    rep.nontrivial_rule.push_str(" | actor level: ");
+    rep.nontrivial_rule.push_str(&sub.nontrivial_rule);
+}
+
 pub fn run_c04(cfg: &RunCfg) -> Report {
     let mut rep = Report::new("C04", cfg.seed, &cfg.tier);
     rep.nontrivial_rule = "a DS-level sequence is non-trivial when at least three different kinds of partition operations succeeded and changed the state; distinct = distinct hash of the op lines".into();
     run_ds(cfg, &mut rep, "C04");
     run_alloc(cfg, &mut rep, "C04");
+    merge_actor_level(cfg, &mut rep, "C04");
     rep
 }
 
@@ -924,5 +966,6 @@ pub fn run_c02(cfg: &RunCfg) -> Report {
     if cfg.only_seq.map(|k| (1_000_000..2_000_000).contains(&k)).unwrap_or(true) {
         super::power_ds::run_into(cfg, &mut rep);
     }
+    merge_actor_level(cfg, &mut rep, "C02");
     rep
 }
